@@ -60,6 +60,13 @@ class ExecutorPool(OrderedPool):
         pass
 
 
+class ArrayPool(OrderedPool):
+    """map() hands the results back as a numpy array instead of a list (mpi4py-style gather, joblib with numpy outputs)."""
+
+    def map(self, f, xs):
+        return np.array(super().map(f, xs))
+
+
 def _trace_monitor(store):
     def mon(ev):
         p = ev.probe
@@ -128,6 +135,8 @@ def run_modes(case):
     modes.append(("lazy-pool", dict(cfg, eval=pe), LazyPool()))
     modes.append(("sched-pool", dict(cfg, eval=pe), SchedPool()))
     modes.append(("executor-pool", dict(cfg, eval=pe), ExecutorPool()))
+    if not blobs:
+        modes.append(("array-pool", dict(cfg, eval=pe), ArrayPool()))
     shard, nshards = case.get("shard", 0), case.get("nshards", 1)
     if shard != 0:
         modes = []
